@@ -78,6 +78,12 @@ func TestZZVerifEmit(t *testing.T) {
 		mk(fmt.Sprintf("slice__slice__%s__ij", T.Name()), []types.Type{sliceT, T, T}, sliceT, func(b Builder, fn Function) Expr {
 			return b.Slice(fn.Param(0), fn.Param(1), fn.Param(2), Expr{})
 		})
+		mk(fmt.Sprintf("makeslice__slice__%s__lc", T.Name()), []types.Type{T, T}, sliceT, func(b Builder, fn Function) Expr {
+			return b.MakeSlice(prog.Type(sliceT, InGo), fn.Param(0), fn.Param(1))
+		})
+		mk(fmt.Sprintf("makeslice__zslice__%s__lc", T.Name()), []types.Type{T, T}, types.NewSlice(types.NewStruct(nil, nil)), func(b Builder, fn Function) Expr {
+			return b.MakeSlice(prog.Type(types.NewSlice(types.NewStruct(nil, nil)), InGo), fn.Param(0), fn.Param(1))
+		})
 		mk(fmt.Sprintf("slice__string__%s__ij", T.Name()), []types.Type{strT, T, T}, strT, func(b Builder, fn Function) Expr {
 			return b.Slice(fn.Param(0), fn.Param(1), fn.Param(2), Expr{})
 		})
